@@ -102,6 +102,12 @@ func (c *conn) terminate(err error) error {
 	return c.stream.Close() // Close the connection
 }
 
+// isDead reports whether the connection has been terminated because of a failure,
+// as opposed to being closed by the user.
+func (c *conn) isDead() bool {
+	return !c.closed.Load() && c.ctx.Err() != nil
+}
+
 // checkAvailable checks if the connection is available for use.
 // It returns net.ErrClosed if the connection has been closed.
 // If the provided context or the connection's internal context is done,
